@@ -1517,7 +1517,7 @@ def gen_case(rng, n_dests=2, fault=0.5, registry_rate=0.5, file_dest=False, p_gl
     for cid in g.class_ids:
         if rng.random() < registry_rate * 0.5:
             if rng.random() < 0.7:
-                registry.append([cid, ["fields", g.fields(2, 40, 46, reserved=(5, 6))]])
+                registry.append([cid, ["fields", g.fields(2, 40, 46, reserved=(5, 6, 7, 8))]])
             else:
                 registry.append([cid, ["raise", g.exn(cls=rng.choice([8, 9] + [c for c in g.class_ids if c >= 50]))]])
     pre = [["add", dests]]
